@@ -4,6 +4,7 @@ package main
 
 import (
 	"crypto/sha256"
+	"math/big"
 	"strconv"
 	"strings"
 
@@ -79,6 +80,13 @@ func genC10(h *H) {
 	h.rng.Shuffle(len(lines), func(i, j int) { lines[i], lines[j] = lines[j], lines[i] })
 	for _, l := range lines {
 		h.doLine("nonce-grid", l)
+	}
+	// hashes at and above the group order (the hash is fed to the generator as bytes, never reduced),
+	// all-zero / all-one, and long hashes starting with such bytes
+	for _, hv := range [][]byte{be32(curveN), be32(new(big.Int).Add(curveN, big.NewInt(1))), bytesRepeat(0xff, 32), make([]byte, 32),
+		be32(new(big.Int).Sub(curveN, big.NewInt(1))), append(be32(curveN), 1, 2, 3), append(bytesRepeat(0xff, 32), bytesRepeat(0xff, 8)...)} {
+		h.doLine("nonce-hash-boundary", "nonce "+hx(h.randBytes(32))+" "+hx(hv)+" - - 0")
+		h.doLine("nonce-hash-boundary", "nonce "+hx(bytesRepeat(0xff, 32))+" "+hx(hv)+" "+hx(h.randBytes(32))+" - 1")
 	}
 	// iteration counts 0..16 on one input
 	k, hs := h.randBytes(32), h.randBytes(32)
